@@ -446,3 +446,19 @@ Theorem pathbadger_log_old_root_slot_refuted :
   commit_writelog (run_batch [([99], [])] []) = [].
 Proof. exact pathbadger_log_old_root_slot_refuted_lem. Qed.
 Print Assumptions pathbadger_log_old_root_slot_refuted.
+
+(* ---- commit attempts rejected by the node database ---- *)
+Theorem rejected_commits_identity : forall (old : kvmap) (hs : list hop),
+  run_history old hs = run_batch old (ops_of hs).
+Proof. exact run_history_ops_lem. Qed.
+Print Assumptions rejected_commits_identity.
+
+(* over histories with arbitrary rejected attempts, the log of the next
+   successful commit covers every key changed since the last successful one *)
+Theorem history_log_correct : forall (old : kvmap) (hs : list hop), sorted old ->
+  apply_writelog old (commit_writelog (run_history old hs)) = contents (run_history old hs) /\
+  NoDup (map fst (commit_writelog (run_history old hs))) /\
+  (forall k, get k (contents (run_history old hs)) <> get k old ->
+             In k (map fst (commit_writelog (run_history old hs)))).
+Proof. exact history_log_correct_lem. Qed.
+Print Assumptions history_log_correct.
